@@ -41,6 +41,10 @@ type Case struct {
 	Chunks []int   `json:"chunks,omitempty"`
 	Concat int     `json:"concat"`
 	FailAt int     `json:"failAt"` // write call at which the writer starts failing
+	// FlipMask: bit n set = the n-th geometry header (members at any depth) is written
+	// in the other byte order than its parent, for the decode direction: each
+	// geometry of an encoding carries its own byte-order mark.
+	FlipMask uint64 `json:"flipMask,omitempty"`
 	// FailHow: what the writer returns at that call (io.Writer allows all three):
 	// 0 = (0, err), 1 = (len/2, err), 2 = (len, err).
 	FailHow int  `json:"failHow,omitempty"`
@@ -82,13 +86,14 @@ func genCase(t *rapid.T) Case {
 	}
 	c := Case{
 		G: *g, Mode: mode, XDR: rapid.Bool().Draw(t, "xdr"),
-		Route:   rapid.IntRange(0, int(model.NumRoutes)-1).Draw(t, "route"),
-		Reader:  rapid.SampledFrom([]string{"chunks", "onebyte", "half", "dataerr", "whole"}).Draw(t, "reader"),
-		Concat:  rapid.IntRange(1, 3).Draw(t, "concat"),
-		FailAt:  rapid.IntRange(0, 40).Draw(t, "failAt"),
-		FailHow: rapid.IntRange(0, 2).Draw(t, "failHow"),
-		Upper:   rapid.Bool().Draw(t, "upper"),
-		Poison:  rapid.IntRange(0, 3).Draw(t, "poison") == 0,
+		Route:    rapid.IntRange(0, int(model.NumRoutes)-1).Draw(t, "route"),
+		Reader:   rapid.SampledFrom([]string{"chunks", "onebyte", "half", "dataerr", "whole"}).Draw(t, "reader"),
+		Concat:   rapid.IntRange(1, 3).Draw(t, "concat"),
+		FailAt:   rapid.IntRange(0, 40).Draw(t, "failAt"),
+		FailHow:  rapid.IntRange(0, 2).Draw(t, "failHow"),
+		FlipMask: rapid.Uint64().Draw(t, "flipMask"),
+		Upper:    rapid.Bool().Draw(t, "upper"),
+		Poison:   rapid.IntRange(0, 3).Draw(t, "poison") == 0,
 	}
 	if c.Reader == "chunks" {
 		n := rapid.IntRange(1, 12).Draw(t, "nchunks")
@@ -297,6 +302,7 @@ func prop(c Case) error {
 			return fmt.Errorf("%s hex Encode accepted a collection with a LinearRing member", c.Mode)
 		}
 	}
+	held := model.Leaves(t) // the caller's aliases of the coordinates, taken before any call
 	got, err := cd.marshal(t, bo)
 	if mustFail {
 		if err == nil {
@@ -342,6 +348,37 @@ func prop(c Case) error {
 	}
 	if err := sameModel("Unmarshal", exp, dec, true); err != nil {
 		return err
+	}
+	// the same geometry with members in byte orders of their own
+	if mixed, _, _, _, err := refwkb.EncodeMixed(g, c.XDR, refMode, func(n int) bool { return c.FlipMask>>(uint(n)%64)&1 == 1 }); err == nil && !bytes.Equal(mixed, want) {
+		dm, err := cd.unmarshal(mixed)
+		if err != nil {
+			return fmt.Errorf("Unmarshal of an encoding whose members use byte orders of their own: %v\n% x", err, mixed)
+		}
+		if err := sameModel("Unmarshal (members in byte orders of their own)", exp, dm, true); err != nil {
+			return err
+		}
+	}
+	// the same geometry object as a member in several places of a collection tree
+	// (a value, not a cycle): GEOMETRYCOLLECTION(g, GEOMETRYCOLLECTION(g), g)
+	{
+		inner, outer := geom.NewGeometryCollection(), geom.NewGeometryCollection()
+		if inner.Push(t) == nil && outer.Push(t, inner, t) == nil {
+			gm := &model.G{Kind: model.GeometryCollection, Members: []model.G{*g, {Kind: model.GeometryCollection, Members: []model.G{*g}}, *g}}
+			if want3, _, err := refwkb.Encode(gm, c.XDR, refMode); err == nil && !(c.Mode == "wkb-err" && refwkb.HasEmptyPoint(gm)) {
+				got3, err := cd.marshal(outer, bo)
+				if err != nil || !bytes.Equal(got3, want3) {
+					return fmt.Errorf("%s Marshal of a collection holding the same object three times: %v\n got  % x\n want % x", c.Mode, err, got3, want3)
+				}
+				dec3, err := cd.unmarshal(want3)
+				if err != nil {
+					return fmt.Errorf("Unmarshal of a collection holding the same geometry three times: %v", err)
+				}
+				if err := sameModel("Unmarshal (same geometry three times)", expected(gm, c.Mode, true), dec3, true); err != nil {
+					return err
+				}
+			}
+		}
 	}
 	// (c) Write
 	var buf bytes.Buffer
@@ -443,11 +480,8 @@ func prop(c Case) error {
 	// (h) the encoding is that of the coordinates as they are now: the first two
 	// ordinates of every coordinate are exchanged in place and the same object is
 	// marshalled again
-	if swapXY(t) {
-		g2, err := model.FromGeom(t)
-		if err != nil {
-			return fmt.Errorf("harness: geometry ill formed after exchanging ordinates: %v", err)
-		}
+	if model.SwapXY(held) {
+		g2 := g.SwappedXY() // from the model: the object is not read back
 		want2, _, refErr2 := refwkb.Encode(g2, c.XDR, refMode)
 		if refErr2 == nil && !(c.Mode == "wkb-err" && refwkb.HasEmptyPoint(g2)) {
 			got2, err := cd.marshal(t, bo)
@@ -459,28 +493,6 @@ func prop(c Case) error {
 	return nil
 }
 
-// swapXY exchanges the first two ordinates of every coordinate of every leaf, in
-// place; false if there was nothing to exchange.
-func swapXY(t geom.T) bool {
-	if gc, ok := t.(*geom.GeometryCollection); ok {
-		any := false
-		for _, m := range gc.Geoms() {
-			if swapXY(m) {
-				any = true
-			}
-		}
-		return any
-	}
-	stride := t.Stride()
-	if stride < 2 {
-		return false
-	}
-	fc := t.FlatCoords()
-	for i := 0; i+1 < len(fc); i += stride {
-		fc[i], fc[i+1] = fc[i+1], fc[i]
-	}
-	return len(fc) > 0
-}
 
 type scanValuer interface {
 	sql.Scanner
